@@ -1110,6 +1110,7 @@ type case15 struct {
 	Cap   nodeRes `json:"cap"`
 	Usage nodeRes `json:"usage"`
 	WS    []wres  `json:"ws"`
+	NoKey []int   `json:"nokey,omitempty"` // workloads recorded without a "cpumem" entry (their WS entry is the zero resource)
 	Impl  *impl15 `json:"impl"`
 }
 
@@ -1177,13 +1178,23 @@ func genC15(r *hx.Rng, id string) *case15 {
 			}
 		}
 	}
+	if r.Chance(10) { // a recorded workload without any cpumem resources (cobalt hands the plugin nil params)
+		c.WS = append(c.WS, wres{CM: map[string]int{}, NM: map[string]int64{}})
+		c.NoKey = append(c.NoKey, len(c.WS)-1)
+	}
 	return c
 }
 
-func workloadsOf(ws []wres) []*coretypes.Workload {
+func workloadsOf(ws []wres, nokey ...int) []*coretypes.Workload {
 	out := []*coretypes.Workload{}
 	for i, w := range ws {
-		out = append(out, &coretypes.Workload{ID: fmt.Sprintf("w%02d", i), Resources: resourcetypes.Resources{"cpumem": w.raw()}})
+		res := resourcetypes.Resources{"cpumem": w.raw()}
+		for _, k := range nokey {
+			if k == i {
+				res = resourcetypes.Resources{}
+			}
+		}
+		out = append(out, &coretypes.Workload{ID: fmt.Sprintf("w%02d", i), Resources: res})
 	}
 	return out
 }
@@ -1196,7 +1207,7 @@ func (f *fixture) runC15(c *case15) {
 		return
 	}
 	defer f.cm.RemoveNode(f.ctx, c.ID) //nolint
-	wl := workloadsOf(c.WS)
+	wl := workloadsOf(c.WS, c.NoKey...)
 	var u resourcetypes.Resources
 	var diffs []string
 	err := retry(func() (e error) { _, u, diffs, e = f.mgr.GetNodeResourceInfo(f.ctx, c.ID, wl, true); return })
